@@ -74,7 +74,7 @@ func (w *vWorld) sets(owned bool) string {
 	return out
 }
 
-// vShape: eight policy shapes, one per feature of the compiler.
+// vShape: nine policy shapes, one per feature of the compiler.
 func vShape(name string, k int) *networkv1.NetworkPolicy {
 	np := &networkv1.NetworkPolicy{ObjectMeta: metav1.ObjectMeta{Namespace: "ns1", Name: name}}
 	web := metav1.LabelSelector{MatchLabels: map[string]string{"app": "web"}}
@@ -103,6 +103,9 @@ func vShape(name string, k int) *networkv1.NetworkPolicy {
 		np.Spec.PodSelector = web
 		np.Spec.Ingress = []networkv1.NetworkPolicyIngressRule{{Ports: vPorts(1), From: []networkv1.NetworkPolicyPeer{vPeer(1)}},
 			{Ports: vPorts(2), From: []networkv1.NetworkPolicyPeer{vPeer(0)}}}
+	case 8: // web accepts a plain ip block that is the exception of shape 2, at the same rule index
+		np.Spec.PodSelector = web
+		np.Spec.Ingress = []networkv1.NetworkPolicyIngressRule{{Ports: vPorts(1), From: []networkv1.NetworkPolicyPeer{{IPBlock: &networkv1.IPBlock{CIDR: "10.0.0.128/25"}}}}}
 	default: // db accepts web
 		np.Spec.PodSelector = metav1.LabelSelector{MatchLabels: map[string]string{"app": "db"}}
 		np.Spec.Ingress = []networkv1.NetworkPolicyIngressRule{{From: []networkv1.NetworkPolicyPeer{{PodSelector: &web}}}}
@@ -110,7 +113,7 @@ func vShape(name string, k int) *networkv1.NetworkPolicy {
 	return np
 }
 
-const vNumShapes = 8
+const vNumShapes = 9
 
 func vAllPods() []*corev1.Pod {
 	return []*corev1.Pod{
@@ -209,15 +212,19 @@ func (h *vC15) noDangling(when string) {
 	verifAssert("C15/no-dangling-reference", len(h.st.dangling) == 0, when+": a batch of rules referenced a missing set or chain: "+strings.Join(h.st.dangling, " | "))
 }
 
-// vShapeOf: quick tier: five of the eight shapes; thorough: all of them.
+// vShapeOf: quick tier: five of the nine shapes; thorough: all of them.
 func vShapeOf(name string) *networkv1.NetworkPolicy {
 	if verifTier() == 0 {
-		return vShape(name, []int{0, 2, 3, 4, 7}[nondetChoice(5)])
+		return vShapeFive(name)
 	}
 	return vShape(name, nondetChoice(vNumShapes))
 }
 
-// BOUND: cluster state before: policy np-a absent or one of the shapes (quick: 5 of the 8 shapes, thorough: all 8), policy np-b absent or present (quick: one shape, thorough: 3), db pod present / absent / without address, web2 present (thorough: or absent), fully synchronised, plus foreign state (an ipset with a member, a chain with a rule, two rules in FORWARD); cluster state after: likewise with web2 present or absent (same policy names, so policies are kept, changed, removed or added); the db pod may have gone away or been re-created (no address yet / another address), with its delete event delivered or missed (galaxy down); one full synchronisation (the order of PolicyManager.Run), compared with the synchronisation of the final state on an empty node; then synchronised again
+func vShapeFive(name string) *networkv1.NetworkPolicy {
+	return vShape(name, []int{2, 3, 4, 7, 8}[nondetChoice(5)])
+}
+
+// BOUND: cluster state before: policy np-a absent or one of the shapes (quick: 5 of the 9 shapes, thorough: all 9), policy np-b absent or present (quick: one shape, thorough: 3), db pod present / absent / without address, web2 present (thorough: or absent), fully synchronised, plus foreign state (an ipset with a member, a chain with a rule, two rules in FORWARD); cluster state after: likewise with web2 present or absent (same policy names, so policies are kept, changed, removed or added); the db pod may have gone away or been re-created (no address yet / another address), with its delete event delivered or missed (galaxy down); one full synchronisation (the order of PolicyManager.Run), compared with the synchronisation of the final state on an empty node; then synchronised again
 func VerifC15_q_syncConverges() {
 	w, st, ss := vNewStrictWorld()
 	h := &vC15{w: w, st: st, ss: ss}
@@ -276,14 +283,14 @@ func VerifC15_q_syncConverges() {
 	h.noDangling("second resync")
 }
 
-// BOUND: a synchronised node (0..1 policy out of the shapes (quick 5, thorough 8), db present / absent / without address) receives 1..2 events (quick) or 1..3 (thorough) out of {policy added, policy changed, policy deleted, db pod added, db pod gets its address, db pod deleted, pod web2 of another namespace and node added or deleted}, each delivered to the real handler of event.go after the listers changed; after every event the node is compared with a freshly synchronised node; every batch is checked by the strict iptables layer
+// BOUND: a synchronised node (0..1 policy out of 5 of the 9 shapes, db present / absent / without address) receives 1..2 events (quick) or 1..3 (thorough) out of {policy added, policy changed, policy deleted, db pod added, db pod gets its address, db pod deleted, pod web2 of another namespace and node added or deleted}, each delivered to the real handler of event.go after the listers changed; after every event the node is compared with a freshly synchronised node; every batch is checked by the strict iptables layer
 func VerifC15_q_eventsConverge() {
 	w, st, ss := vNewStrictWorld()
 	h := &vC15{w: w, st: st, ss: ss}
 	vAddForeign(w)
 	s := vState{db: nondetChoice(3), web2: true}
 	if nondetBool() {
-		s.pols = append(s.pols, vShapeOf("np-a"))
+		s.pols = append(s.pols, vShapeFive("np-a"))
 	}
 	w.setState(s)
 	w.syncAll()
@@ -324,7 +331,7 @@ func VerifC15_q_eventsConverge() {
 			if len(s.pols) == 1 && s.pols[0].Name == "np-a" {
 				name = "np-b"
 			}
-			np := vShapeOf(name)
+			np := vShapeFive(name)
 			s.pols = append(s.pols, np)
 			w.setState(s)
 			_ = w.pm.AddPolicy(np)
@@ -332,7 +339,7 @@ func VerifC15_q_eventsConverge() {
 		case 1: // a policy changes
 			verifAssume(len(s.pols) > 0)
 			old := s.pols[0]
-			np := vShapeOf(old.Name)
+			np := vShapeFive(old.Name)
 			s.pols = append([]*networkv1.NetworkPolicy{np}, s.pols[1:]...)
 			w.setState(s)
 			_ = w.pm.UpdatePolicy(old, np)
